@@ -86,7 +86,7 @@ impl<T: RefCnt> HybridProtection<T> {
 
         // Try to replace the debt with our candidate. If it works, we get the debt slot to use. If
         // not, we get a replacement value, already protected and a debt to take care of.
-        match node.confirm_helping(gen, candidate as usize) {
+        let result = match node.confirm_helping(gen, candidate as usize) {
             Ok(debt) => {
                 #[cfg(arc_swap_verif)]
                 verif_rt::probe(verif_rt::probes::FB_CONFIRMED, false);
@@ -107,7 +107,11 @@ impl<T: RefCnt> HybridProtection<T> {
                 // the slot is paid back.
                 unsafe { Self::new(replacement as *mut _, None) }
             }
-        }
+        };
+        // The helping slot is free again in both cases; only now may the node be retired if the
+        // generation wrapped around.
+        node.finish_helping(gen);
+        result
     }
 
     #[inline]
